@@ -233,8 +233,10 @@ func policyCase(c *Ctx, si int, shape *tnode, assign, pols []int, args []string)
 	if len(tr.calls) != 0 {
 		bad = "hooks/actions ran"
 	}
-	if !strings.Contains(o.Stderr, "Error: ") {
-		bad = "no `Error:` line on the error stream"
+	if i := strings.Index(o.Stderr, "Usage: "); i < 0 || strings.TrimSpace(o.Stderr[:i]) == "" {
+		bad = "no error text on the error stream before the usage"
+	} else if o.Err != nil && !strings.Contains(o.Stderr[:i], o.Err.Error()) {
+		bad = "the error stream does not carry the text of the returned error"
 	}
 	if !hasUsageOf(o.Stderr, r.rejectAt) {
 		bad = "the error stream lacks the usage line of the rejecting command: " + usageLine(r.rejectAt, assign)
